@@ -139,6 +139,22 @@ def gen_cases(chk):
                     vals = [c] * k + [c + d] * (n - k)
                     cases.append("rtr %x %s %s 0 %s %s 0 szMode=SZ_BEST_SPEED;quantization_intervals=%d x:%s" % (ty, tup5(t), tup5(t), dbits(float(e)), dbits(1e-3), q,
                                                                                                            ",".join("%x" % enc(ty, v) for v in vals)))
+    # the width of an exact value (computeByteSizePerIntValue: offsets 0..range must fit): value ranges exactly on, one below and one above each
+    # width boundary, the extremes alternating so that with four intervals every value - the maximum included - is stored exactly
+    for ty in range(2, 10):
+        lo, hi = tmin(ty), tmax(ty)
+        for R in (255, 256, 257, 65535, 65536, 65537, (1 << 32) - 1, 1 << 32, (1 << 32) + 1):
+            if R > hi - lo or (W[ty] == 32 and R >= (1 << 32) - 1):
+                continue
+            base = (lo + (hi - lo - R) // 2) if W[ty] < 64 else (-(R // 2) if ty in SIGNED else 1000)
+            for t in ((24,), (4, 6), (2, 3, 4), (2, 2, 2, 3)):
+                n = 1
+                for v in t:
+                    n *= v
+                vals = [base + R if i % 2 == 0 else base for i in range(n)]
+                vals[n // 2] = base + R // 2
+                cases.append("rtr %x %s %s 0 %s %s 0 szMode=SZ_BEST_SPEED;quantization_intervals=4 x:%s" % (ty, tup5(t), tup5(t), dbits(1.0), dbits(1e-3),
+                                                                                                        ",".join("%x" % enc(ty, v) for v in vals)))
     # the 8- and 16-bit kernels clamp reconstructions to the type's range (every predictor position has its own clamp):
     # noisy data hugging the minimum / the maximum, every rank
     for ty in (2, 3, 4, 5):
